@@ -2,6 +2,7 @@ package c14mapit
 
 import (
 	"context"
+	"runtime"
 	"sync/atomic"
 	"testing"
 	"time"
@@ -30,6 +31,11 @@ type RealPlan struct {
 	ErrAt  int  `json:"err_at"`   // MapStream: the source fails once that many items are out; -1 = never
 	FErrAt int  `json:"f_err_at"` // MapStream: f fails for that item; -1 = never
 	Stop   int  `json:"stop"`     // MapStream: close after that many results; -1 = read to the end / error
+	// OneP: the case runs with GOMAXPROCS(1) and parallelism <= 0 ("as many as there are processors": one)
+	OneP bool `json:"one_p,omitempty"`
+	// OneShot (MapIterator): the iterator is used in one expression - MapIterator(...).Next() - while another
+	// goroutine forces garbage collections: the first result arrives all the same
+	OneShot bool `json:"one_shot,omitempty"`
 }
 
 func genReal(t *rapid.T) RealPlan {
@@ -48,6 +54,12 @@ func genReal(t *rapid.T) RealPlan {
 		if rapid.IntRange(0, 2).Draw(t, "early") == 0 {
 			p.Stop = rapid.IntRange(0, p.N).Draw(t, "stop")
 		}
+	}
+	if rapid.IntRange(0, 5).Draw(t, "onep") == 0 {
+		p.OneP, p.Par = true, rapid.SampledFrom([]int{0, -1}).Draw(t, "parauto")
+	}
+	if !p.Stream && p.N > 0 && rapid.IntRange(0, 3).Draw(t, "oneshot") == 0 {
+		p.OneShot = true
 	}
 	return p
 }
@@ -70,7 +82,13 @@ func (it *realIter) Next() (int, bool) {
 
 func runReal(p RealPlan) (vk.Outcome, error) {
 	var out vk.Outcome
-	bound := int64(p.Buf + p.Par + 1)
+	eff := p.Par
+	if p.OneP {
+		defer runtime.GOMAXPROCS(runtime.GOMAXPROCS(1))
+		out.Label("gomaxprocs=1")
+		eff = 1
+	}
+	bound := int64(p.Buf + eff + 1)
 	var calls = make([]atomic.Int32, p.N+1)
 	spin := func(i int) {
 		for k := ((p.N - i) % 7) * p.Spin; k > 0; k-- {
@@ -81,6 +99,35 @@ func runReal(p RealPlan) (vk.Outcome, error) {
 	done := make(chan error, 1)
 	go func() {
 		done <- func() error {
+			if !p.Stream && p.OneShot {
+				stopGC := make(chan struct{})
+				gcDone := make(chan struct{})
+				go func() {
+					defer close(gcDone)
+					for {
+						select {
+						case <-stopGC:
+							return
+						default:
+							runtime.GC()
+						}
+					}
+				}()
+				defer func() { close(stopGC); <-gcDone }()
+				for round := 0; round < 8; round++ { // (every abandoned MapIterator leaves its goroutines behind: keep the number small)
+					var taken atomic.Int64
+					v, ok := parallel.MapIterator[int, int](&realIter{n: p.N, taken: &taken}, p.Par, p.Buf, func(i int) int {
+						if i == 0 {
+							time.Sleep(200 * time.Microsecond) // long enough for a collection to happen during the call
+						}
+						return 3*i + 1
+					}).Next()
+					if !ok || v != 1 {
+						return vk.Violf("lost", "MapIterator(%d items, ...).Next() used as one expression (round %d, collections running): (%d, %v), want (1, true)", p.N, round, v, ok)
+					}
+				}
+				return nil
+			}
 			if !p.Stream {
 				var taken atomic.Int64
 				it := parallel.MapIterator[int, int](&realIter{n: p.N, taken: &taken}, p.Par, p.Buf, func(i int) int {
